@@ -606,15 +606,31 @@ func (c *Ctx) r193(withPerm *ssa.Function) {
 			if !ok {
 				return
 			}
-			call, ok := iff.Cond.(*ssa.Call)
-			if !ok || calleeName(call) != "strings.HasPrefix" {
+			// strings.HasPrefix(token, "Bearer ") or the ok result of strings.CutPrefix(token, "Bearer ")
+			condv := iff.Cond
+			negated := false
+			if u, ok := condv.(*ssa.UnOp); ok && u.Op == token.NOT {
+				condv, negated = u.X, true
+			}
+			var call *ssa.Call
+			if cl, ok := condv.(*ssa.Call); ok && calleeName(cl) == "strings.HasPrefix" {
+				call = cl
+			} else if ex, ok := condv.(*ssa.Extract); ok && ex.Index == 1 {
+				if cl, ok := ex.Tuple.(*ssa.Call); ok && calleeName(cl) == "strings.CutPrefix" {
+					call = cl
+				}
+			}
+			if call == nil {
 				return
 			}
-			if s, ok := constString(call.Common().Args[1]); !ok || s != "Bearer " {
+			if s, ok := constPrefixArg(call.Common().Args[1]); !ok || s != "Bearer " {
 				return
 			}
 			found = true
 			bad := iff.Block().Succs[1]
+			if negated {
+				bad = iff.Block().Succs[0]
+			}
 			is401 := func(x ssa.Instruction) bool {
 				for _, h := range h401 {
 					if h == x {
@@ -810,8 +826,21 @@ func (c *Ctx) r193(withPerm *ssa.Function) {
 		c.check(hdr && form, rule, construct, p.pos(serve.Pos()), "Authorization header and token form value", "a documented token source (Authorization header / token query parameter) is no longer read")
 		// the verifier receives the token with the prefix trimmed
 		tok := verify.Common().Args[1]
-		tc, ok := tok.(*ssa.Call)
-		c.check(ok && calleeName(tc) == "strings.TrimPrefix", rule, "(*Handler).ServeHTTP: token given to the verifier", c.ipos(verify),
+		trimmed := c.allOrigins(tok, func(a apath) bool {
+			if len(a.Fields) != 0 {
+				return false
+			}
+			if tc, ok := a.Root.(*ssa.Call); ok && calleeName(tc) == "strings.TrimPrefix" {
+				return true
+			}
+			if ex, ok := a.Root.(*ssa.Extract); ok && ex.Index == 0 {
+				if tc, ok := ex.Tuple.(*ssa.Call); ok && calleeName(tc) == "strings.CutPrefix" {
+					return true
+				}
+			}
+			return false
+		})
+		c.check(trimmed, rule, "(*Handler).ServeHTTP: token given to the verifier", c.ipos(verify),
 			"prefix-trimmed token", "the verifier does not receive the token with the Bearer prefix removed")
 	}
 }
@@ -823,3 +852,6 @@ func reachesBlock(from ssa.Instruction, b *ssa.BasicBlock) bool {
 	}
 	return reachFrom(from, func(x ssa.Instruction) bool { return x.Block() == b }, nil) != nil
 }
+
+// constPrefixArg: a constant string argument, directly or as a package-level constant.
+func constPrefixArg(v ssa.Value) (string, bool) { return constString(v) }
